@@ -1,4 +1,23 @@
+import ShpanVerif.Drive.C01
+import ShpanVerif.Drive.C02
+import ShpanVerif.Drive.C03
+import ShpanVerif.Drive.C04
+import ShpanVerif.Drive.C05
+import ShpanVerif.Drive.C06
+import ShpanVerif.Drive.C07
 import ShpanVerif.Drive.C08
+import ShpanVerif.Drive.C09
+import ShpanVerif.Drive.C10
+import ShpanVerif.Drive.C11
+import ShpanVerif.Drive.C12
+import ShpanVerif.Drive.C13
+import ShpanVerif.Drive.C14
+import ShpanVerif.Drive.C15
+import ShpanVerif.Drive.C16
+import ShpanVerif.Drive.C17
+import ShpanVerif.Drive.C18
+import ShpanVerif.Drive.C19
+import ShpanVerif.Drive.C20
 /-
 Line-protocol driver.  usage: driver <Cxx>   stdin: alternating lines
   case <T|N> <case text>
@@ -10,7 +29,26 @@ stdout per pair:
 open ShpanVerif
 
 def handlers : List (String × (String → String → String × Bool × String)) := [
-  ("C08", Drive.C08.handle)
+  ("C01", Drive.C01.handle),
+  ("C02", Drive.C02.handle),
+  ("C03", Drive.C03.handle),
+  ("C04", Drive.C04.handle),
+  ("C05", Drive.C05.handle),
+  ("C06", Drive.C06.handle),
+  ("C07", Drive.C07.handle),
+  ("C08", Drive.C08.handle),
+  ("C09", Drive.C09.handle),
+  ("C10", Drive.C10.handle),
+  ("C11", Drive.C11.handle),
+  ("C12", Drive.C12.handle),
+  ("C13", Drive.C13.handle),
+  ("C14", Drive.C14.handle),
+  ("C15", Drive.C15.handle),
+  ("C16", Drive.C16.handle),
+  ("C17", Drive.C17.handle),
+  ("C18", Drive.C18.handle),
+  ("C19", Drive.C19.handle),
+  ("C20", Drive.C20.handle)
 ]
 
 def dropWord (s : String) : String :=
